@@ -2,6 +2,7 @@
    Statements only; proofs are in Proofs/WindowsProofs.v; the model is Model/Windows.v. *)
 From Coq Require Import ZArith List Bool.
 From V Require Import Model.Windows Proofs.WindowsProofs.
+From V Require Import Model.WindowsSrc Proofs.WindowsSrcProofs Generated.WindowsGen.
 Import ListNotations.
 Open Scope Z_scope.
 
@@ -218,3 +219,48 @@ Example C20_nonvacuous_reporting :
   get_reporting_data ex_ropts ex_data =
   Ok [(2 * DAY, [Some 2]); (3 * DAY, [Some 3]); (4 * DAY, [Some 4]); (5 * DAY, [None])] false false.
 Proof. vm_compute. reflexivity. Qed.
+
+(* ---- what the facts of the source mean on the model (for all inputs) *)
+Theorem C20_max_days_counts_elapsed_days : forall o before e m,
+  b_end o = Some e -> b_ignore_gap o = false -> b_max_days o = Some m ->
+  baseline_start_target o before = Some (e - m * DAY).
+Proof. exact modelled_max_days_l. Qed.
+Print Assumptions C20_max_days_counts_elapsed_days.
+
+Theorem C20_max_days_counts_elapsed_days_reporting : forall o after s m,
+  r_start o = Some s -> r_ignore_gap o = false -> r_max_days o = Some m ->
+  reporting_end_target o after = Some (s + m * DAY).
+Proof. exact modelled_max_days_reporting_l. Qed.
+Print Assumptions C20_max_days_counts_elapsed_days_reporting.
+
+Theorem C20_max_days_zero_is_a_limit : forall o before e,
+  b_end o = Some e -> b_ignore_gap o = false -> b_max_days o = Some 0 ->
+  baseline_start_target o before = Some e.
+Proof. exact modelled_max_days_zero_l. Qed.
+Print Assumptions C20_max_days_zero_is_a_limit.
+
+Theorem C20_slices_keep_both_bounds : forall e d r,
+  (In r (slice_to e d) <-> In r d /\ cmpz CLe (ts r) e = true) /\
+  (In r (slice_from e d) <-> In r d /\ cmpz CLe e (ts r) = true).
+Proof. exact modelled_slices_l. Qed.
+Print Assumptions C20_slices_keep_both_bounds.
+
+Theorem C20_overshoot_tolerance_test : forall o before e n,
+  b_end o = Some e -> b_ignore_gap o = true -> b_n_over o = Some n ->
+  baseline_end_limit o before =
+    if cmpz (w_overshoot_tolerance_cmp modelled_wsrc) (e - n * DAY) (last_ts before e)
+    then Some (last_ts before e) else Some e.
+Proof. exact modelled_overshoot_tolerance_l. Qed.
+Print Assumptions C20_overshoot_tolerance_test.
+
+Example C20_modelled_facts_nonvacuous :
+  day_ns (w_day_unit modelled_wsrc) = Some DAY /\ lookup_fn (w_boundary_lookup modelled_wsrc) = nearest /\
+  day_ns WallClockDays = None.
+Proof. repeat split. Qed.
+
+(* ---- tie to the source, regenerated on every run (kept last: an edit of the day arithmetic, of a slice, of a
+   comparison operator, of a max_days guard, of the boundary lookup, of the blanking or of the empty-selection errors
+   changes Generated/WindowsGen.v - or makes the translator fail closed - and breaks exactly this obligation) *)
+Theorem C20_source_facts_are_the_modelled_ones : gen_wsrc = modelled_wsrc.
+Proof. vm_compute. reflexivity. Qed.
+Print Assumptions C20_source_facts_are_the_modelled_ones.
